@@ -520,6 +520,48 @@ func (e *c06kEnv) unfarmAndWithdraw(p *c06kPool, lp int, pc sdkmath.Int) {
 	e.tr.Line("pkeep.uaw", append(f, c06kDeltas(before, after)...)...)
 }
 
+// malformed sends one message that the keeper must refuse (validation branches of pool.go); the model's answer is "err".
+func (e *c06kEnv) malformed(p *c06kPool, lp int) {
+	other := e.apps[0]
+	if p.app == other {
+		other = e.apps[1]
+	}
+	foreign := e.appCoin[other][0] // a coin that is not of this pair
+	pcd := liqtypes.PoolCoinDenom(p.app, p.id)
+	one := sdkmath.NewInt(1000)
+	kind := e.rng.Intn(12)
+	var msg sdk.Msg
+	switch kind {
+	case 0:
+		msg = liqtypes.NewMsgDeposit(99, e.lps[lp], p.id, e.coinsXY(p, one, one)) // unknown app
+	case 1:
+		msg = liqtypes.NewMsgDeposit(p.app, e.lps[lp], 9999, e.coinsXY(p, one, one)) // unknown pool
+	case 2:
+		msg = liqtypes.NewMsgDeposit(p.app, e.lps[lp], p.id, sdk.NewCoins(sdk.NewCoin(foreign, one), sdk.NewCoin(p.b, one))) // coin not of the pair
+	case 3:
+		msg = liqtypes.NewMsgWithdraw(99, e.lps[lp], p.id, sdk.NewCoin(pcd, one))
+	case 4:
+		msg = liqtypes.NewMsgWithdraw(p.app, e.lps[lp], 9999, sdk.NewCoin(pcd, one))
+	case 5:
+		msg = liqtypes.NewMsgWithdraw(p.app, e.lps[lp], p.id, sdk.NewCoin(p.q, one)) // not the pool coin
+	case 6:
+		msg = liqtypes.NewMsgDepositAndFarm(99, e.lps[lp], p.id, e.coinsXY(p, one, one))
+	case 7:
+		msg = liqtypes.NewMsgDepositAndFarm(p.app, e.lps[lp], 9999, e.coinsXY(p, one, one))
+	case 8:
+		msg = liqtypes.NewMsgDepositAndFarm(p.app, e.lps[lp], p.id, sdk.NewCoins(sdk.NewCoin(foreign, one), sdk.NewCoin(p.b, one)))
+	case 9:
+		msg = liqtypes.NewMsgUnfarmAndWithdraw(99, p.id, e.lps[lp], sdk.NewCoin(pcd, one))
+	case 10:
+		msg = liqtypes.NewMsgUnfarmAndWithdraw(p.app, 9999, e.lps[lp], sdk.NewCoin(pcd, one))
+	default:
+		msg = liqtypes.NewMsgUnfarmAndWithdraw(p.app, p.id, e.lps[lp], sdk.NewCoin(p.q, one))
+	}
+	out := e.deliver(msg)
+	e.tr.Count("bad:" + out)
+	e.tr.Line("pkeep.bad", strconv.Itoa(kind), out)
+}
+
 // farm: plain MsgFarm (moves pool coin wallet → module account; no pool state involved, not a trace line)
 func (e *c06kEnv) farm(p *c06kPool, lp int, pc sdkmath.Int) {
 	out := e.deliver(liqtypes.NewMsgFarm(p.app, p.id, e.lps[lp], sdk.NewCoin(liqtypes.PoolCoinDenom(p.app, p.id), pc)))
@@ -953,7 +995,7 @@ func (e *c06kEnv) randomOp(withOrders bool) {
 		if h, b, ok := e.holderOf(p); ok {
 			e.farm(p, h, b.QuoRaw(3).AddRaw(1))
 		}
-	case k < 92:
+	case k < 91:
 		switch e.rng.Intn(3) {
 		case 0:
 			e.donate(p, lp, e.amount(), sdkmath.ZeroInt())
@@ -962,7 +1004,9 @@ func (e *c06kEnv) randomOp(withOrders bool) {
 		default:
 			e.donate(p, lp, e.amount(), e.amount())
 		}
-	case k < 94:
+	case k < 93:
+		e.malformed(p, lp)
+	case k < 95:
 		// a governance change of the fee rate in the middle of a history (also refused values)
 		vals := []string{"0", "0.003", "0.000000000000000001", "0.1", "0.5", "0.999999999999999999", "1.0", "-0.01", "1.5"}
 		e.setFee(p.app, vals[e.rng.Intn(len(vals))], "")
@@ -1089,13 +1133,21 @@ func (e *c06kEnv) witnessEdges() {
 	// … and a ranged pool without both
 	e.msgWithdraw(lower, 1, e.bal(1, liqtypes.PoolCoinDenom(lower.app, lower.id)))
 	e.drain(lower, true, true)
-	e.unfarmAndWithdraw(lower, 2, e.farmed(lower, 2)) // inside the message: depleted ⇒ failed request, message succeeds
+	e.depositAndFarm(lower, 3, sdkmath.NewInt(1_000_000), sdkmath.NewInt(1_000_000)) // inside the message: depleted ⇒ the message fails
+	e.unfarmAndWithdraw(lower, 2, e.farmed(lower, 2))                                // depleted ⇒ failed request, message succeeds
 	e.nextBlock(5)
 	// whale: offers at the 10^40 bound of ValidateMsgDeposit and one above
 	s := e.snapPool(mid)
 	e.msgDeposit(mid, 5, c06kE40.Sub(s.rx), c06kE40.Sub(s.ry))
 	e.msgDeposit(mid, 5, c06kE40.Sub(s.rx).AddRaw(1), sdkmath.NewInt(1))
+	e.msgDeposit(mid, 5, sdkmath.NewInt(1), c06kE40.Sub(s.ry).AddRaw(1))
+	su := e.snapPool(upper)
+	e.depositAndFarm(upper, 5, c06kE40.Sub(su.rx).AddRaw(1), sdkmath.NewInt(1))
+	e.depositAndFarm(upper, 5, sdkmath.NewInt(1), c06kE40.Sub(su.ry).AddRaw(1))
 	e.depositAndFarm(upper, 5, c06kE40.QuoRaw(7), c06kE40.QuoRaw(7))
+	for i := 0; i < 24; i++ {
+		e.malformed(mid, i%4)
+	}
 	e.nextBlock(5)
 	e.nextBlock(5)
 }
